@@ -1,6 +1,7 @@
 import Chiritori.Props.C14
 import Chiritori.Props.C04
-import Chiritori.Lemmas.PiecesOut
+import Chiritori.Lemmas.RelParse
+import Chiritori.Props.C19
 /-
   C19, first clause, for default-strategy removals in well-delimited sources: cleaning the output again with the
   same configuration changes nothing.
@@ -19,6 +20,13 @@ import Chiritori.Lemmas.PiecesOut
   element skeleton (`skel_congr`), which is the skeleton of the pruned forest because removals create no new
   pairings (`parse_pruned`); the pruned forest has no element whose condition holds, so nothing is ready in the
   output and cleaning it is the identity (C04).
+
+  `compose_default` (second clause, same domain): for `CfgLe cfg1 cfg2`, `clean cfg2 (clean cfg1 src)` and
+  `clean cfg2 src` have the same non-whitespace characters.  The output of the first run is, piece by piece, the
+  token list of the pruned forest - tags as they were, texts up to whitespace (`clean_shape`); two token streams
+  related that way parse to forests that no pruning followed by reading the non-whitespace text can tell apart
+  (`parse_rel`, Lemmas/RelParse.lean); the forest of what is left is what is left of the forest (`parse_pruned`);
+  and pruning by the later, larger predicate absorbs the earlier pruning (`prune_prune`, `ready_monotone`).
 -/
 namespace Chiritori.Props.C19
 open Chiritori Chiritori.Spec
@@ -134,14 +142,17 @@ theorem prunePart_no_ready (P : Element → Bool) : ∀ (p : Part),
       · exact prune_no_ready P ch e he
 end
 
-/-- C19 (first clause) for default-strategy removals in well-delimited sources -/
-theorem idempotent_default (d0 : Char) (dr : List Char) (e0 : Char) (er : List Char)
+/-- what cleaning a well-delimited source with default-strategy removals gives: again a well-delimited text, whose
+    pieces are, one by one, the tokens of the pruned forest - the tags as they were, the texts up to whitespace -/
+theorem clean_shape (d0 : Char) (dr : List Char) (e0 : Char) (er : List Char)
     (hd0 : wsChar d0 = false) (hel : ∀ w c, (e0 :: er) = w ++ [c] → wsChar c = false)
     (ps : List Piece) (hok : ∀ p ∈ ps, p.ok d0 e0) (cfg : Cfg) (out : List Char)
     (hnu : NoReadyUnwrap cfg (parseSource (renderAll (d0 :: dr) (e0 :: er) ps) (d0 :: dr) (e0 :: er)))
     (h : clean (renderAll (d0 :: dr) (e0 :: er) ps) (d0 :: dr) (e0 :: er) cfg = .ok out) :
-    clean out (d0 :: dr) (e0 :: er) cfg = .ok out := by
-  generalize hsrc : renderAll (d0 :: dr) (e0 :: er) ps = src at h hnu
+    ∃ ps', (∀ p ∈ ps', p.ok d0 e0) ∧ out = renderAll (d0 :: dr) (e0 :: er) ps' ∧
+      PRel (d0 :: dr) (e0 :: er) ps' (flattenParts (pruneParts (conditionHolds cfg)
+        (parseSource (renderAll (d0 :: dr) (e0 :: er) ps) (d0 :: dr) (e0 :: er)))) := by
+  generalize hsrc : renderAll (d0 :: dr) (e0 :: er) ps = src at h hnu ⊢
   have hde : (e0 :: er) ≠ [] := by simp
   have hdsn : (d0 :: dr) ≠ [] := by simp
   -- the tokens and the forest of the source
@@ -232,7 +243,7 @@ theorem idempotent_default (d0 : Char) (dr : List Char) (e0 : Char) (er : List C
             List.mem_map.mpr ⟨t, htm, rfl⟩
           rw [← hsrc, tokens_tnorm d0 dr e0 er ps hok] at hkv
           exact tnorm_shape d0 e0 _ _ ps [] hok (by simp) _ hkv
-        obtain ⟨ps', q1, q2, q3⟩ := (pieces_after d0 dr e0 er hd0 hel F removed hFws)
+        obtain ⟨ps', q1, q2, _, q4⟩ := (pieces_after d0 dr e0 er hd0 hel F removed hFws)
           ((tokenize src (d0 :: dr) (e0 :: er)).filter (keepTok X)) 0 [] (by simpa [tokSegs] using hremoved) rfl hshape
           (by simpa [tokSegs] using hck)
         have hout : charsOf o = renderAll (d0 :: dr) (e0 :: er) ps' := by
@@ -240,35 +251,159 @@ theorem idempotent_default (d0 : Char) (dr : List Char) (e0 : Char) (er : List C
           have : (tokSegs X (tokenize src (d0 :: dr) (e0 :: er))).flatten =
               (((tokenize src (d0 :: dr) (e0 :: er)).filter (keepTok X)).map fun t => bytesOf t.value).flatten := rfl
           rw [this, ← q2, charsOf_bytesOf]
-        rw [hout]
-        -- its tags are those of the pruned forest
-        have htags : tagValues (tokenize (renderAll (d0 :: dr) (e0 :: er) ps') (d0 :: dr) (e0 :: er)) =
-            tagValues (flattenParts (pruneParts (conditionHolds cfg) (parseSource src (d0 :: dr) (e0 :: er)))) := by
-          have := tagValues_render d0 dr e0 er ps' q1
-          rw [this, q3, hA]
-          rfl
-        -- hence nothing in it is ready
-        have hskel := skel_congr (d0 :: dr) (e0 :: er) _ _ htags
-        have hpp := parse_pruned (d0 :: dr) (e0 :: er) (conditionHolds cfg) (tokenize src (d0 :: dr) (e0 :: er))
-        have hnone : nothingReady (renderAll (d0 :: dr) (e0 :: er) ps') (d0 :: dr) (e0 :: er) cfg = true := by
-          unfold nothingReady extentsOfSource readyExtents
-          rw [List.isEmpty_iff, List.flatMap_eq_nil_iff]
-          intro e he
-          have hel' : e.1 ∈ (elementsOf (parseSource (renderAll (d0 :: dr) (e0 :: er) ps') (d0 :: dr) (e0 :: er))).map (·.1) :=
-            List.mem_map.mpr ⟨e, he, rfl⟩
-          rw [elementsOf_skel] at hel'
-          unfold parseSource at hel'
-          rw [hskel] at hel'
-          have hpp' : parse (d0 :: dr) (e0 :: er) (flattenParts (pruneParts (conditionHolds cfg) (parseSource src (d0 :: dr) (e0 :: er)))) =
-              pruneParts (conditionHolds cfg) (parseSource src (d0 :: dr) (e0 :: er)) := hpp
-          rw [hpp', ← elementsOf_skel] at hel'
-          obtain ⟨e', he', hee⟩ := List.mem_map.mp hel'
-          have := prune_no_ready (conditionHolds cfg) _ e' he'
-          obtain ⟨el, st, en⟩ := e
-          simp only at hee ⊢
-          rw [← hee, this]
-          simp
-        exact C04.c04 (renderAll (d0 :: dr) (e0 :: er) ps') (d0 :: dr) (e0 :: er) cfg hdsn hde hnone
+        refine ⟨ps', q1, hout, ?_⟩
+        rw [hA]
+        exact q4
+
+theorem tagsOf_of_pRel (ds de : List Char) : ∀ (ps : List Piece) (L : List Token), PRel ds de ps L →
+    tagsOf ds de ps = tagValues L
+  | [], [], _ => rfl
+  | [], _ :: _, h => absurd h (by simp [PRel])
+  | .text _ :: _, [], h => absurd h (by simp [PRel])
+  | .tag _ _ :: _, [], h => absurd h (by simp [PRel])
+  | .text v :: ps, t :: L, h => by
+    obtain ⟨hk, _, hrest⟩ := h
+    simp only [tagsOf, tagValues, List.filter_cons, hk]
+    simpa [tagValues] using tagsOf_of_pRel ds de ps L hrest
+  | .tag b0 rest :: ps, t :: L, h => by
+    obtain ⟨hk, hv, hrest⟩ := h
+    simp only [tagsOf, tagValues, List.filter_cons, hk, decide_true, ite_true, List.map_cons, hv]
+    congr 1
+    simpa [tagValues] using tagsOf_of_pRel ds de ps L hrest
+
+theorem nw_of_pRel (ds de : List Char) : ∀ (ps : List Piece) (L : List Token), PRel ds de ps L →
+    nwC (renderAll ds de ps) = nwC (flat L)
+  | [], [], _ => rfl
+  | [], _ :: _, h => absurd h (by simp [PRel])
+  | .text _ :: _, [], h => absurd h (by simp [PRel])
+  | .tag _ _ :: _, [], h => absurd h (by simp [PRel])
+  | .text v :: ps, t :: L, h => by
+    obtain ⟨_, hn, hrest⟩ := h
+    simp only [renderAll, Piece.render, flat_cons, nwC_append, hn, nw_of_pRel ds de ps L hrest]
+  | .tag b0 rest :: ps, t :: L, h => by
+    obtain ⟨_, hv, hrest⟩ := h
+    simp only [renderAll, Piece.render, flat_cons, nwC_append, hv, nw_of_pRel ds de ps L hrest]
+
+/-- the forest of the cleaned text has the elements of the pruned forest -/
+theorem elements_after (d0 : Char) (dr : List Char) (e0 : Char) (er : List Char) (ps' : List Piece)
+    (hok : ∀ p ∈ ps', p.ok d0 e0) (P : Element → Bool) (toks : List Token)
+    (hrel : PRel (d0 :: dr) (e0 :: er) ps' (flattenParts (pruneParts P (parse (d0 :: dr) (e0 :: er) toks)))) :
+    (elementsOf (parseSource (renderAll (d0 :: dr) (e0 :: er) ps') (d0 :: dr) (e0 :: er))).map (·.1) =
+      (elementsOf (pruneParts P (parse (d0 :: dr) (e0 :: er) toks))).map (·.1) := by
+  have htags : tagValues (tokenize (renderAll (d0 :: dr) (e0 :: er) ps') (d0 :: dr) (e0 :: er)) =
+      tagValues (flattenParts (pruneParts P (parse (d0 :: dr) (e0 :: er) toks))) := by
+    rw [tagValues_render d0 dr e0 er ps' hok, tagsOf_of_pRel _ _ _ _ hrel]
+  have hskel := skel_congr (d0 :: dr) (e0 :: er) _ _ htags
+  rw [elementsOf_skel, elementsOf_skel]
+  unfold parseSource
+  rw [hskel, parse_pruned]
+
+mutual
+theorem elementsOf_prune_subset (P : Element → Bool) : ∀ (parts : List Part),
+    ∀ e ∈ elementsOf (pruneParts P parts), e ∈ elementsOf parts
+  | [], e, he => by simp [pruneParts, elementsOf] at he
+  | p :: ps, e, he => by
+    have app : ∀ (a b : List Part), elementsOf (a ++ b) = elementsOf a ++ elementsOf b := by
+      intro a
+      induction a with
+      | nil => intro b; simp [elementsOf]
+      | cons x xs ih => intro b; simp [elementsOf, ih, List.append_assoc]
+    simp only [pruneParts, app, List.mem_append] at he
+    simp only [elementsOf, List.mem_append]
+    rcases he with he | he
+    · exact Or.inl (elementsOfPart_prune_subset P p e he)
+    · exact Or.inr (elementsOf_prune_subset P ps e he)
+theorem elementsOfPart_prune_subset (P : Element → Bool) : ∀ (p : Part),
+    ∀ e ∈ elementsOf (prunePart P p), e ∈ elementsOfPart p
+  | .text t, e, he => by simp [prunePart, elementsOf, elementsOfPart] at he
+  | .element el st en ch, e, he => by
+    simp only [prunePart] at he
+    split at he
+    · simp [elementsOf] at he
+    · simp only [elementsOf, elementsOfPart, List.append_nil, List.mem_cons] at he ⊢
+      rcases he with rfl | he
+      · exact Or.inl rfl
+      · exact Or.inr (elementsOf_prune_subset P ch e he)
+end
+
+/-- C19 (first clause) for default-strategy removals in well-delimited sources -/
+theorem idempotent_default (d0 : Char) (dr : List Char) (e0 : Char) (er : List Char)
+    (hd0 : wsChar d0 = false) (hel : ∀ w c, (e0 :: er) = w ++ [c] → wsChar c = false)
+    (ps : List Piece) (hok : ∀ p ∈ ps, p.ok d0 e0) (cfg : Cfg) (out : List Char)
+    (hnu : NoReadyUnwrap cfg (parseSource (renderAll (d0 :: dr) (e0 :: er) ps) (d0 :: dr) (e0 :: er)))
+    (h : clean (renderAll (d0 :: dr) (e0 :: er) ps) (d0 :: dr) (e0 :: er) cfg = .ok out) :
+    clean out (d0 :: dr) (e0 :: er) cfg = .ok out := by
+  obtain ⟨ps', q1, hout, q4⟩ := clean_shape d0 dr e0 er hd0 hel ps hok cfg out hnu h
+  subst hout
+  -- the elements of the output's forest are those of the pruned forest: none of them is ready
+  have hels := elements_after d0 dr e0 er ps' q1 (conditionHolds cfg) _ q4
+  have hnone : nothingReady (renderAll (d0 :: dr) (e0 :: er) ps') (d0 :: dr) (e0 :: er) cfg = true := by
+    unfold nothingReady extentsOfSource readyExtents
+    rw [List.isEmpty_iff, List.flatMap_eq_nil_iff]
+    intro e he
+    have hel' : e.1 ∈ (elementsOf (parseSource (renderAll (d0 :: dr) (e0 :: er) ps') (d0 :: dr) (e0 :: er))).map (·.1) :=
+      List.mem_map.mpr ⟨e, he, rfl⟩
+    rw [hels] at hel'
+    obtain ⟨e', he', hee⟩ := List.mem_map.mp hel'
+    have := prune_no_ready (conditionHolds cfg) _ e' he'
+    obtain ⟨el, st, en⟩ := e
+    simp only at hee ⊢
+    rw [← hee, this]
+    simp
+  exact C04.c04 (renderAll (d0 :: dr) (e0 :: er) ps') (d0 :: dr) (e0 :: er) cfg (by simp) (by simp) hnone
+
+/-- the non-whitespace text of the cleaned document is that of the pruned forest -/
+theorem clean_nw (d0 : Char) (dr : List Char) (e0 : Char) (er : List Char)
+    (hd0 : wsChar d0 = false) (hel : ∀ w c, (e0 :: er) = w ++ [c] → wsChar c = false)
+    (ps : List Piece) (hok : ∀ p ∈ ps, p.ok d0 e0) (cfg : Cfg) (out : List Char)
+    (hnu : NoReadyUnwrap cfg (parseSource (renderAll (d0 :: dr) (e0 :: er) ps) (d0 :: dr) (e0 :: er)))
+    (h : clean (renderAll (d0 :: dr) (e0 :: er) ps) (d0 :: dr) (e0 :: er) cfg = .ok out) :
+    nwC out = nwflat (pruneParts (conditionHolds cfg)
+      (parseSource (renderAll (d0 :: dr) (e0 :: er) ps) (d0 :: dr) (e0 :: er))) := by
+  obtain ⟨ps', _, hout, q4⟩ := clean_shape d0 dr e0 er hd0 hel ps hok cfg out hnu h
+  rw [hout, nw_of_pRel _ _ _ _ q4]
+  rfl
+
+/-- C19 (second clause) for default-strategy removals in well-delimited sources: cleaning with an earlier
+    configuration and then with a later one gives, up to whitespace, what cleaning with the later one gives.
+    "Later" is `CfgLe`: the clock does not go back and no removal target is withdrawn. -/
+theorem compose_default (d0 : Char) (dr : List Char) (e0 : Char) (er : List Char)
+    (hd0 : wsChar d0 = false) (hel : ∀ w c, (e0 :: er) = w ++ [c] → wsChar c = false)
+    (ps : List Piece) (hok : ∀ p ∈ ps, p.ok d0 e0) (cfg1 cfg2 : Cfg) (hle : CfgLe cfg1 cfg2)
+    (out1 out12 out2 : List Char)
+    (hnu : NoReadyUnwrap cfg2 (parseSource (renderAll (d0 :: dr) (e0 :: er) ps) (d0 :: dr) (e0 :: er)))
+    (h1 : clean (renderAll (d0 :: dr) (e0 :: er) ps) (d0 :: dr) (e0 :: er) cfg1 = .ok out1)
+    (h12 : clean out1 (d0 :: dr) (e0 :: er) cfg2 = .ok out12)
+    (h2 : clean (renderAll (d0 :: dr) (e0 :: er) ps) (d0 :: dr) (e0 :: er) cfg2 = .ok out2) :
+    nwC out12 = nwC out2 := by
+  have hmono : ∀ e, conditionHolds cfg1 e = true → conditionHolds cfg2 e = true := ready_monotone cfg1 cfg2 hle
+  have hnu1 : NoReadyUnwrap cfg1 (parseSource (renderAll (d0 :: dr) (e0 :: er) ps) (d0 :: dr) (e0 :: er)) :=
+    fun e he hc => hnu e he (hmono _ hc)
+  obtain ⟨ps1, q1, hout1, q4⟩ := clean_shape d0 dr e0 er hd0 hel ps hok cfg1 out1 hnu1 h1
+  subst hout1
+  rw [clean_nw d0 dr e0 er hd0 hel ps hok cfg2 out2 hnu h2]
+  -- the intermediate document: its elements are among those of the source
+  have hels := elements_after d0 dr e0 er ps1 q1 (conditionHolds cfg1) _ q4
+  have hnu12 : NoReadyUnwrap cfg2 (parseSource (renderAll (d0 :: dr) (e0 :: er) ps1) (d0 :: dr) (e0 :: er)) := by
+    intro e he hc
+    have hm : e.1 ∈ (elementsOf (parseSource (renderAll (d0 :: dr) (e0 :: er) ps1) (d0 :: dr) (e0 :: er))).map (·.1) :=
+      List.mem_map.mpr ⟨e, he, rfl⟩
+    rw [hels] at hm
+    obtain ⟨e', he', hee⟩ := List.mem_map.mp hm
+    have := hnu e' (elementsOf_prune_subset _ _ e' he')
+    rw [hee] at this
+    exact this hc
+  rw [clean_nw d0 dr e0 er hd0 hel ps1 q1 cfg2 out12 hnu12 h12]
+  -- its forest is, up to whitespace, the pruned forest of the source
+  have htr : TokRel (tokenize (renderAll (d0 :: dr) (e0 :: er) ps1) (d0 :: dr) (e0 :: er))
+      (flattenParts (pruneParts (conditionHolds cfg1)
+        (parseSource (renderAll (d0 :: dr) (e0 :: er) ps) (d0 :: dr) (e0 :: er)))) := by
+    have := tokRel_of_pRel (d0 :: dr) (e0 :: er) ps1 _ [] [] _ q4 (by simp) rfl (tokens_tnorm d0 dr e0 er ps1 q1)
+    simpa using this
+  have hrel := parse_rel (d0 :: dr) (e0 :: er) _ _ htr
+  unfold parseSource at hrel ⊢
+  rw [parse_pruned] at hrel
+  rw [hrel (conditionHolds cfg2), prune_prune _ _ hmono]
 
 /-! Non-vacuity: a concrete well-delimited source with a ready element (inside a pending one) meets every premise. -/
 def exPs : List Piece :=
@@ -306,6 +441,32 @@ example : (∀ p ∈ exPs, p.ok '<' '>') ∧ wsChar '<' = false ∧
   intro p hp
   apply okB_sound
   have : exPs.all (okB '<' '>') = true := by decide +kernel
+  exact List.all_eq_true.mp this p hp
+
+/-! Non-vacuity of `compose_default`: two configurations, the later one removes more (a newly expired marker and a
+    newly targeted one); every premise holds and the three runs succeed, the first one leaving work for the second. -/
+def exPs2 : List Piece :=
+  [.text "a\n".toList, .tag 't' "l to='2001-01-01 00:00:00'".toList, .text "\n  x\n".toList, .tag '/' "tl".toList,
+   .text "\nm\n".toList, .tag 't' "l to='2003-01-01 00:00:00'".toList, .text " y ".toList, .tag '/' "tl".toList,
+   .text "\n".toList, .tag 'r' "m name='b'".toList, .text "k".toList, .tag '/' "rm".toList, .text "\nz\n".toList]
+def exC1 : Cfg := ⟨"tl".toList, "rm".toList, 1009843200, 0, "+00:00".toList, []⟩
+def exC2 : Cfg := ⟨"tl".toList, "rm".toList, 1072915200, 0, "+00:00".toList, ["b".toList]⟩
+
+def outIs (r : Except Panic (List Char)) (s : String) : Bool :=
+  match r with
+  | .ok o => o == s.toList
+  | .error _ => false
+
+example : CfgLe exC1 exC2 ∧ (∀ p ∈ exPs2, p.ok '<' '>') ∧
+    NoReadyUnwrap exC2 (parseSource (renderAll "<".toList ">".toList exPs2) "<".toList ">".toList) ∧
+    outIs (clean (renderAll "<".toList ">".toList exPs2) "<".toList ">".toList exC1)
+      "a\nm\n<tl to='2003-01-01 00:00:00'> y </tl>\n<rm name='b'>k</rm>\nz\n" = true ∧
+    outIs (clean (renderAll "<".toList ">".toList exPs2) "<".toList ">".toList exC2) "a\nm\n\nz\n" = true := by
+  refine ⟨⟨rfl, rfl, rfl, Or.inl (by decide), by intro t ht; simp [exC1] at ht⟩, ?_,
+    noReadyUnwrapB_sound' _ _ (by decide +kernel), by decide +kernel, by decide +kernel⟩
+  intro p hp
+  apply okB_sound
+  have : exPs2.all (okB '<' '>') = true := by decide +kernel
   exact List.all_eq_true.mp this p hp
 
 end Chiritori.Props.C19
